@@ -172,6 +172,7 @@ ops_src.CALLS["prim_call_kw"] = _prim_call_kw
 @op("srcc13")
 def _srcc13(t: Toks) -> str:
     global _RANKS
+    ops_src._load_plugins()      # (re-executes this module once per process: before the table is stored, not after)
     assert t.next() == "["
     ranks = {}
     while t.peek() != "]":
